@@ -178,13 +178,24 @@ qlisttbl_t *qconfig_parse_file(qlisttbl_t *tbl, const char *filepath,
                 return NULL;
             }
 
-            // replace
-            strncpy(buf, strp, CONST_STRLEN(_INCLUDE_DIRECTIVE) + len);
-            buf[CONST_STRLEN(_INCLUDE_DIRECTIVE) + len] = '\0';
-            strp = qstrreplace("sn", str, buf, incdata);
+            // replace this directive (and only this one) with the file
+            size_t dirlen = CONST_STRLEN(_INCLUDE_DIRECTIVE) + len;
+            size_t offset = strp - str;
+            size_t inclen = strlen(incdata);
+            size_t taillen = strlen(strp + dirlen);
+            char *newstr = (char *) malloc(offset + inclen + taillen + 1);
+            if (newstr == NULL) {
+                free(incdata);
+                free(str);
+                return NULL;
+            }
+            memcpy(newstr, str, offset);
+            memcpy(newstr + offset, incdata, inclen);
+            memcpy(newstr + offset + inclen, strp + dirlen, taillen + 1);
             free(incdata);
             free(str);
-            str = strp;
+            str = newstr;
+            strp = str + offset;  // included text may have directives too
         } else {
             strp += CONST_STRLEN(_INCLUDE_DIRECTIVE);
         }
